@@ -61,6 +61,13 @@ CHECKS = {
             "manage-name-id requests; a returned destination must be registered for that issuer and binding, a supplied URL/index is "
             "honoured exactly or refused, an unknown issuer never gets a destination.",
             PURE, "3/C09"),
+    "C10": ("exploration", "mutation workload on real requests + acceptance predicate on the API boundary + tool-log oracle for signed requests",
+            "Requests of four types made by the real client, signed and unsigned, over Redirect/POST/SOAP, are delivered pristine and mutated "
+            "(addressing, time, schema, wrong root, the C01 signature/reference/ID/wrapping operators, damaged transport encodings) to receivers "
+            "with and without want_authn_requests_signed and to one without an endpoint for the arriving binding. A returned request must have the "
+            "expected type and required attributes, an own or absent Destination, an IssueInstant within a day, a genuine verification of the "
+            "request element itself under the issuer's key if it is signed (signed if wanted), and equal the signed original.",
+            TRUST, "3/C10"),
     "C11": ("exploration", "hostile-document workload over introspected entry points with audit-hook, parser-construction and tool-log monitors",
             "Feeds a catalogue of hostile documents (internal/external/parameter entities, billion laughs, external DTD, XInclude, stylesheet PI, "
             "UTF-16/BOM, truncations, non-XML) to every *_from_string of every schema module, the generic constructors, the SOAP/pack readers, the "
